@@ -433,7 +433,7 @@ func (x *Exec) applyContract(fr *Frame, st *State, fn *ssa.Function, fc *FnContr
 	x.C.trusted["contract of "+fc.Name+" (checked separately)"] = true
 	// frame
 	if fc.AssignsAll {
-		x.havocHeap(st, "call "+fc.Name)
+		x.havocHeapAtCall(st, "call "+fc.Name)
 	} else {
 		for _, a := range fc.Assigns {
 			if err := x.havocLValue(env, st, a); err != nil {
